@@ -60,6 +60,8 @@ type World struct {
 	// lock model, reconstructed from the journal: time of the last accepted scale-up per
 	// group by the current controller incarnation
 	LockT0 map[int]time.Time
+	// scan index of the last cloud scale-up of a group that failed (cleared by a success or a restart)
+	FailedIncrease map[int]int
 
 	podSeq  map[int]int // per group, so that changes inside one group do not rename another group's objects
 	nodeSeq map[int]int
@@ -221,6 +223,7 @@ func (w *World) EnsureController() error {
 	w.Ctrl = c
 	w.Epoch++
 	w.LockT0 = map[int]time.Time{}
+	w.FailedIncrease = map[int]int{}
 	return nil
 }
 
